@@ -371,8 +371,8 @@ fault of any kind, no fuel exhaustion — and its final state carries the verdic
 of every group of `Spec.attempt`.
 
 Full statement aimed at (`compile_correct`, NOT proved): the same for every tree `syntax.Parse` can produce, i.e.
-`InFrag 8` extended by balancing groups, both directions.  Proved: the tiers 1–5 below (left to right; general loops
-and `UpdateBumpalong` included; no `Ref`, conditionals, lookbehind). -/
+`InFrag 8` extended by balancing groups, both directions.  Proved: the tiers 1–6 below (left to right; general loops,
+`UpdateBumpalong`, backreferences and conditionals included; no lookbehind / RightToLeft). -/
 section compiler
 open RegexVerif.Compile RegexVerif.Writer RegexVerif.Generated.Opcodes
 
@@ -395,7 +395,7 @@ theorem compile_correct_T3 (ti : TreeInfo) (t : GoNode) (TPx : TP) (env : VM.Env
     (hrel : EnvRel TPx (codeFromTree (mainCfg ti) t).2.sets env se) (hi : i ≤ se.n) (hlen : se.n ≤ 2147483647) :
     ∃ s0 s n, VM.init (emit ti t) (i : Int) = .ok s0 ∧
       (∀ fuel, n ≤ fuel → (VM.run (emit ti t) env fuel s0).1 = .done s) ∧ Agrees ti se pat i s :=
-  compile_correct_upto 3 (by decide) ti t TPx env se pat i hfrag hwf hpat hrel hi hlen (by omega)
+  compile_correct_upto 3 (by decide) ti t TPx env se pat i hfrag hwf hpat hrel hi hlen (by omega) (by omega)
 
 /-- tier 2 (no Atomic, no lookaround): a special case of tier 3 -/
 theorem compile_correct_T2 (ti : TreeInfo) (t : GoNode) (TPx : TP) (env : VM.Env) (se : Spec.Env) (pat : Pat) (i : Nat)
@@ -437,7 +437,7 @@ theorem compile_correct_find_upto (k : Nat) (hk : k ≤ maxTier) (ti : TreeInfo)
     (se : Spec.Env) (pat : Pat)
     (start : Nat) (hfrag : InFrag k TPx ti t = true) (hwf : treeWf ti t = true)
     (hpat : toPatRoot TPx false t = some pat) (hrel : EnvRel TPx (codeFromTree (mainCfg ti) t).2.sets env se)
-    (hlen : se.n ≤ 2147483647) (hlenS : 4 ≤ k → se.n < 2147483647) (st : St) :
+    (hlen : se.n ≤ 2147483647) (hlenS : 4 ≤ k → se.n < 2147483647) (hecma : 6 ≤ k → env.ecma = false) (st : St) :
     Spec.find se pat false start = some st ↔
       ∃ (before : List Nat) (i : Nat) (after : List Nat), scanOrder false start se.n = before ++ i :: after ∧
         (∃ s0 s n, VM.init (emit ti t) (i : Int) = .ok s0 ∧
@@ -446,7 +446,8 @@ theorem compile_correct_find_upto (k : Nat) (hk : k ≤ maxTier) (ti : TreeInfo)
           Spec.attempt se pat false i = some st) ∧
         ∀ j ∈ before, ∃ s0 s n, VM.init (emit ti t) (j : Int) = .ok s0 ∧
           (∀ fuel, n ≤ fuel → (VM.run (emit ti t) env fuel s0).1 = .done s) ∧ VM.matched s = false := by
-  have hatt := fun j (hj : j ≤ se.n) => compile_correct_upto k hk ti t TPx env se pat j hfrag hwf hpat hrel hj hlen hlenS
+  have hatt := fun j (hj : j ≤ se.n) =>
+    compile_correct_upto k hk ti t TPx env se pat j hfrag hwf hpat hrel hj hlen hlenS hecma
   rw [find_eq_some_iff]
   have hpos : ∀ j ∈ scanOrder false start se.n, j ≤ se.n := fun j hj => ((mem_scanOrder_ltr start se.n j).mp hj).2
   constructor
@@ -484,7 +485,7 @@ theorem compile_correct_find_T3 (ti : TreeInfo) (t : GoNode) (TPx : TP) (env : V
           Spec.attempt se pat false i = some st) ∧
         ∀ j ∈ before, ∃ s0 s n, VM.init (emit ti t) (j : Int) = .ok s0 ∧
           (∀ fuel, n ≤ fuel → (VM.run (emit ti t) env fuel s0).1 = .done s) ∧ VM.matched s = false :=
-  compile_correct_find_upto 3 (by decide) ti t TPx env se pat start hfrag hwf hpat hrel hlen (by omega) st
+  compile_correct_find_upto 3 (by decide) ti t TPx env se pat start hfrag hwf hpat hrel hlen (by omega) (by omega) st
 
 /-- **`compile_correct_T4a`** — tier 4 = tier 3 + the general loops `Loop` / `Lazyloop` around ANY body of the fragment
     (`Setmark|Nullmark … Branchmark|Lazybranchmark`; counted: `Setcount|Nullcount … Branchcount|Lazybranchcount`, all
@@ -497,7 +498,7 @@ theorem compile_correct_T4a (ti : TreeInfo) (t : GoNode) (TPx : TP) (env : VM.En
     (hrel : EnvRel TPx (codeFromTree (mainCfg ti) t).2.sets env se) (hi : i ≤ se.n) (hlen : se.n < 2147483647) :
     ∃ s0 s n, VM.init (emit ti t) (i : Int) = .ok s0 ∧
       (∀ fuel, n ≤ fuel → (VM.run (emit ti t) env fuel s0).1 = .done s) ∧ Agrees ti se pat i s :=
-  compile_correct_upto 4 (by decide) ti t TPx env se pat i hfrag hwf hpat hrel hi (by omega) (fun _ => hlen)
+  compile_correct_upto 4 (by decide) ti t TPx env se pat i hfrag hwf hpat hrel hi (by omega) (fun _ => hlen) (by omega)
 
 /-- **`compile_correct_T4b`** — tier 5 = tier 4 + `UpdateBumpalong` (the node the parser puts behind a leading `.*`-like
     loop; its instruction raises the BOTTOM slot of the backtracking stack — the text position the `Lazybranch` at
@@ -511,7 +512,24 @@ theorem compile_correct_T4b (ti : TreeInfo) (t : GoNode) (TPx : TP) (env : VM.En
     (hrel : EnvRel TPx (codeFromTree (mainCfg ti) t).2.sets env se) (hi : i ≤ se.n) (hlen : se.n < 2147483647) :
     ∃ s0 s n, VM.init (emit ti t) (i : Int) = .ok s0 ∧
       (∀ fuel, n ≤ fuel → (VM.run (emit ti t) env fuel s0).1 = .done s) ∧ Agrees ti se pat i s :=
-  compile_correct_upto 5 (by decide) ti t TPx env se pat i hfrag hwf hpat hrel hi (by omega) (fun _ => hlen)
+  compile_correct_upto 5 (by decide) ti t TPx env se pat i hfrag hwf hpat hrel hi (by omega) (fun _ => hlen) (by omega)
+
+/-- **`compile_correct_T4c`** — tier 6 = tier 5 + backreferences and conditionals: `Ref` (case-sensitive: `refmatch`
+    against `Spec.refMatch` on the LAST capture of the group, read from the capture arrays through `CapRep`),
+    `BackRefCond` (`Setjump; Lazybranch; Testref; Forejump …`: the `yes` branch iff the group has a capture) and
+    `ExprCond` (`Setjump; Setmark; Lazybranch; ⟨cond⟩; Getmark; Forejump …`: the captures of the condition's first
+    success are kept, its position is not, nothing of it is retried), each with one or two branches.
+    Two extra hypotheses: the engine is not in ECMAScript mode (`env.ecma = false`: there a reference to a group
+    without capture matches the empty string, the specification has no such rule), and — part of `InFrag 6` for trees
+    that contain such nodes — the writer uses group numbers as capture slots (no `Caps` map, i.e. the group numbers
+    are dense; otherwise two groups could share the slot the interpreter tests). -/
+theorem compile_correct_T4c (ti : TreeInfo) (t : GoNode) (TPx : TP) (env : VM.Env) (se : Spec.Env) (pat : Pat) (i : Nat)
+    (hfrag : InFrag 6 TPx ti t = true) (hwf : treeWf ti t = true) (hpat : toPatRoot TPx false t = some pat)
+    (hrel : EnvRel TPx (codeFromTree (mainCfg ti) t).2.sets env se) (hi : i ≤ se.n) (hlen : se.n < 2147483647)
+    (henv : env.ecma = false) :
+    ∃ s0 s n, VM.init (emit ti t) (i : Int) = .ok s0 ∧
+      (∀ fuel, n ≤ fuel → (VM.run (emit ti t) env fuel s0).1 = .done s) ∧ Agrees ti se pat i s :=
+  compile_correct_upto 6 (by decide) ti t TPx env se pat i hfrag hwf hpat hrel hi (by omega) (fun _ => hlen) (fun _ => henv)
 
 /-! ### non-vacuity (compiler correctness): four concrete trees inside the fragments, the hypotheses of the theorems
 met, and both sides of the conclusion evaluated -/
@@ -608,8 +626,46 @@ example : (toPatRoot ccTP false ccT8).map (fun p => Spec.attempt (ccSe [120, 97,
 /-- a failing attempt of the same program ends at `Stop` unmatched (its text position is the raised bottom slot) -/
 example : ccRun (ccInfo 1) ccT8 (ccEnv [] (ccSe [120, 97, 97])) 0 200 = some (false, 3, [[]]) := by decide
 
-/-- trees outside the proved tiers: a backreference is tier 6 -/
-example : InFrag 5 ccTP (ccInfo 2) (.capture 0 (-1) (.concat [.capture 1 (-1) (.char opOne false false 97), .ref false false 1])) = false := by
+/-- `(a)\1` on "aa" (tier 6, not tier 5) and on "ab" (no match) -/
+example : InFrag 5 ccTP (ccInfo 2) ccT9 = false ∧ InFrag 6 ccTP (ccInfo 2) ccT9 = true ∧ treeWf (ccInfo 2) ccT9 = true := by
+  decide
+example : ccRun (ccInfo 2) ccT9 (ccEnv [] (ccSe [97, 97])) 0 200 = some (true, 2, [[0, 2], [0, 1]]) ∧
+    ccRun (ccInfo 2) ccT9 (ccEnv [] (ccSe [97, 98])) 0 200 = some (false, 0, [[], []]) := by decide
+example : (toPatRoot ccTP false ccT9).map (fun p => (Spec.attempt (ccSe [97, 97]) p false 0, Spec.attempt (ccSe [97, 98]) p false 0)) =
+    some (some { pos := 2, caps := [(1, 0, 1), (0, 0, 2)] }, none) := by decide
+
+/-- `(a)?(?(1)b|c)` on "ab" (group 1 set: the `yes` branch) and on "c" (not set: the `no` branch) -/
+example : InFrag 6 ccTP (ccInfo 2) ccT10 = true ∧ treeWf (ccInfo 2) ccT10 = true := by decide
+example : ccRun (ccInfo 2) ccT10 (ccEnv [] (ccSe [97, 98])) 0 200 = some (true, 2, [[0, 2], [0, 1]]) ∧
+    ccRun (ccInfo 2) ccT10 (ccEnv [] (ccSe [99])) 0 200 = some (true, 1, [[0, 1], []]) := by decide
+example : (toPatRoot ccTP false ccT10).map (fun p => (Spec.attempt (ccSe [97, 98]) p false 0, Spec.attempt (ccSe [99]) p false 0)) =
+    some (some { pos := 2, caps := [(1, 0, 1), (0, 0, 2)] }, some { pos := 1, caps := [(0, 0, 1)] }) := by decide
+
+/-- `(?(?=(a))ab|c)` on "ab": the capture made inside the condition is kept, its position is not -/
+example : InFrag 6 ccTP (ccInfo 2) ccT11 = true ∧ treeWf (ccInfo 2) ccT11 = true := by decide
+example : ccRun (ccInfo 2) ccT11 (ccEnv [] (ccSe [97, 98])) 0 200 = some (true, 2, [[0, 2], [0, 1]]) ∧
+    ccRun (ccInfo 2) ccT11 (ccEnv [] (ccSe [99])) 0 200 = some (true, 1, [[0, 1], []]) := by decide
+example : (toPatRoot ccTP false ccT11).map (fun p => Spec.attempt (ccSe [97, 98]) p false 0) =
+    some (some { pos := 2, caps := [(1, 0, 1), (0, 0, 2)] }) := by decide
+/-- the hypotheses of `compile_correct_T4c` hold for `(a)\1` on "aa", so its conclusion does -/
+example : ∃ s0 s n, VM.init (emit (ccInfo 2) ccT9) (0 : Nat) = .ok s0 ∧
+    (∀ fuel, n ≤ fuel → (VM.run (emit (ccInfo 2) ccT9) (ccEnv [] (ccSe [97, 97])) fuel s0).1 = .done s) ∧
+    VM.matched s = true :=
+  match h : toPatRoot ccTP false ccT9 with
+  | some pat =>
+    let ⟨s0, s, n, h1, h2, hag⟩ := compile_correct_T4c (ccInfo 2) ccT9 ccTP _ (ccSe [97, 97]) pat 0 (by decide) (by decide) h
+      (ccRel _ _) (by decide) (by decide) rfl
+    ⟨s0, s, n, h1, h2, by
+      rw [hag.verdict]
+      have : (toPatRoot ccTP false ccT9).map (fun p => (Spec.attempt (ccSe [97, 97]) p false 0).isSome) = some true := by
+        decide
+      rw [h] at this
+      simpa using this⟩
+  | none => absurd h (by decide)
+
+/-- trees outside the proved tiers: a lookbehind is tier 7; a case-insensitive backreference is in no tier -/
+example : InFrag 6 ccTP (ccInfo 1) (.capture 0 (-1) (.concat [.poslook (.char opOne true false 97), .char opOne false false 98])) = false ∧
+    InFrag 8 ccTP (ccInfo 2) (.capture 0 (-1) (.concat [.capture 1 (-1) (.char opOne false false 97), .ref false true 1])) = false := by
   decide
 
 end compiler
